@@ -725,6 +725,9 @@ iwrc jbn_from_json(const char *json, struct jbl_node **node, struct iwpool *pool
   };
   _jbl_skip_bom(&ctx);
   _jbl_parse_value(&ctx, 0, 0, 0, 0, ctx.buf);
+  if (!ctx.rc && !ctx.root) { // a lone `]`: the value parser hands it back to a caller that does not exist
+    ctx.rc = JBL_ERROR_PARSE_JSON;
+  }
   *node = ctx.root;
   return ctx.rc;
 }
@@ -738,6 +741,9 @@ iwrc jbn_from_js(const char *json, struct jbl_node **node, struct iwpool *pool) 
   };
   _jbl_skip_bom(&ctx);
   _jbl_parse_value(&ctx, 0, 0, 0, 0, ctx.buf);
+  if (!ctx.rc && !ctx.root) { // a lone `]`: the value parser hands it back to a caller that does not exist
+    ctx.rc = JBL_ERROR_PARSE_JSON;
+  }
   *node = ctx.root;
   return ctx.rc;
 }
